@@ -25,7 +25,74 @@ def consts():
     return float(m.group(1)) if m else 0.0008
 
 
-def sizing_sync(ctx, corr_s, corr_f, tr, ix):
+def tax_rate_const():
+    txt = open(os.path.join(vlib.LEAN, "RQ", "GenR", "Consts.lean")).read()
+    m = re.search(r"def stockTaxRateDefault : Option \w+ := some \(([0-9.]+)", txt)
+    return float(m.group(1)) if m else 0.0005
+
+
+def otp_sync(ctx, corr_p, tr, ix, c, created, rate, mult, minc, lines, meta, rp):
+    """order_target_portfolio: monitors on every call; correspondence when every current holding is a key of the target
+    (holdings outside the target are sold at market before the account is read)"""
+    targets, limits = c["args"]
+    pb = c["pos_before"]
+    acc = c["before"].get("STOCK")
+    if acc is None:
+        return
+    held = {h["id"]: h["long"]["qty"] for h in acc["holdings"] if h["long"]["qty"]}
+    closable = {oid: pb[oid]["closable"] for oid in pb if oid in ix.stock and "closable" in pb[oid]}
+    ctx.stats["otp_calls"] += 1
+    for o in created:
+        s = ix.stock.get(o["book"])
+        if s is None:
+            continue
+        ksh = s["board"] == "KSH"
+        lot = 1 if ksh else int(s["lot"])
+        q, h = o["qty"], held.get(o["book"], 0)
+        if not o["is_buy"]:
+            if q > h:
+                ctx.witness("C15.3", {"kind": "sell_exceeds_holding", "api": "order_target_portfolio"},
+                            "order_target_portfolio(%r) at %s: SELL order for %s shares of %s, holding %s" % (targets, c["when"], q, o["book"], h), rp)
+            elif not ksh and q % lot != 0 and q != h:
+                ctx.witness("C15.1", {"kind": "odd_lot_order", "api": "order_target_portfolio"}, "order_target_portfolio(%r): SELL %s of %s is neither whole lots nor the whole holding %s" % (targets, q, o["book"], h), rp)
+        else:
+            if q <= 0:
+                ctx.witness("C15.5", {"kind": "non_positive_buy_quantity", "api": "order_target_portfolio"}, "order_target_portfolio(%r) at %s: BUY order with quantity %s for %s" % (targets, c["when"], q, o["book"]), rp)
+            elif not ksh and q % lot != 0:
+                ctx.witness("C15.1", {"kind": "odd_lot_order", "api": "order_target_portfolio"}, "order_target_portfolio(%r): BUY %s of %s is not whole lots of %s" % (targets, q, o["book"], lot), rp)
+            if ksh and 0 < q < 200:
+                ctx.witness("C15.1", {"kind": "star_market_below_minimum", "api": "order_target_portfolio"}, "order_target_portfolio(%r): STAR-market BUY of %s shares" % (targets, q), rp)
+        if o["qty"] == 0:
+            ctx.witness("C15.5", {"kind": "zero_quantity_order", "api": "order_target_portfolio"}, "order_target_portfolio(%r) created an order for 0 shares of %s" % (targets, o["book"]), rp)
+    # sells come before buys
+    sides = [o["is_buy"] for o in created if o["book"] in targets]
+    if sides != sorted(sides):
+        ctx.witness("C15", {"kind": "otp_buy_before_sell"}, "order_target_portfolio(%r): orders %s not in the order sells, then buys" % (targets, [(o["book"], o["is_buy"], o["qty"]) for o in created]), rp)
+    ctx.nontrivial("order_target_portfolio", len(created), tuple(sorted(set(o["is_buy"] for o in created))), bool(limits))
+    if any(oid not in targets for oid in held):
+        ctx.stats["otp_calls_with_holdings_outside_target"] += 1
+        return
+    toks = []
+    for oid, pc in targets.items():
+        s = ix.stock.get(oid)
+        p = pb.get(oid)
+        if s is None or p is None or not (p["price"] == p["price"] and p["price"] > 0):
+            ctx.stats["otp_calls_without_price"] += 1
+            return
+        lim = limits.get(oid)
+        op = lim[0] if lim else p["price"]
+        cp = lim[1] if lim else p["price"]
+        ksh = int(s["board"] == "KSH")
+        toks += [str(ksh), str(1 if ksh else int(s["lot"])), str(int(s["type"] == "CS")), f2b(float(pc)), f2b(p["price"]), f2b(op), f2b(cp), str(int(lim is None)), str(int(lim is None)), str(int(p["qty"]))]
+    taxm = tr.cfg["cost"].get("tax_multiplier", 1)
+    lines.append("SZOTP %s %s %s %s %s %s %s %d %s" % (f2b(acc["obs"]["total_value"]), f2b(acc["obs"]["cash"]), f2b(rate), f2b(mult), f2b(minc), f2b(tax_rate_const()), f2b(taxm),
+                                                 len(targets), " ".join(toks)))
+    order_ids = list(targets)
+    impl = "NONE" if not created else " ".join("%d:%d:%d:%s" % (order_ids.index(o["book"]) if o["book"] in order_ids else -1, o["is_buy"], o["qty"], f2b(o["price"]) if o["is_limit"] else "-") for o in created)
+    meta.append((corr_p, c, impl))
+
+
+def sizing_sync(ctx, corr_s, corr_f, tr, ix, corr_p=None):
     rate = consts()
     cost = tr.cfg["cost"]
     mult, minc = cost.get("stock_commission_multiplier", 1), cost.get("cn_stock_min_commission", 5)
@@ -106,12 +173,14 @@ def sizing_sync(ctx, corr_s, corr_f, tr, ix):
                     ctx.witness("C15.5", {"kind": "zero_quantity_order", "api": api}, "%s%r created an order for 0 lots (%s)" % (api, args, o["effect"]), rp)
         elif api in ("order", "order_to") and args[0] in ix.fut and args[0] in pb:
             future_monitor(ctx, rp, c, created, pb[args[0]], api == "order_to")
+        elif api == "order_target_portfolio" and corr_p is not None:
+            otp_sync(ctx, corr_p, tr, ix, c, created, rate, mult, minc, lines, meta, rp)
     if not lines or not ctx.driver_ok:
         return
     reps = vlib.ask_driver(lines)
     for (corr, c, impl), rep, line in zip(meta, reps, lines):
         ok = rep.strip() == impl
-        corr.add(ok, {"api": c["api"], "args": c["args"], "position": c["pos_before"].get(c["args"][0]), "cash": c["before"].get("STOCK", {}).get("obs", {}).get("cash"),
+        corr.add(ok, {"api": c["api"], "args": c["args"], "position": c["pos_before"].get(c["args"][0]) if not isinstance(c["args"][0], dict) else {k: c["pos_before"].get(k) for k in c["args"][0]}, "cash": c["before"].get("STOCK", {}).get("obs", {}).get("cash"),
                       "impl": impl, "model": rep.strip(), "request": line[:200], "when": str(c["when"])})
         ctx.nontrivial(c["api"], impl != "NONE", impl.split()[0] if impl != "NONE" else None)
 
@@ -349,8 +418,9 @@ def run(ctx):
     corr_r = ctx.corr("_round_order_quantity", "direct calls of the real function on random quantities (incl. the 10-digit Decimal rounding region) vs model `roundOrderQty`")
     corr_d = ctx.corr("int(Decimal(a)/Decimal(b)) at prec 10", "Python's decimal module vs model `decQuot10`")
     direct(ctx, corr_r, corr_d)
-    tstream.stream(ctx, ctx.n(80, 3000), None, [], extra_sync=lambda c, tr, ix: sizing_sync(c, corr_s, corr_f, tr, ix),
-                   market_opts=lambda k: {"opts": {"p_split": 0.8 if k % 2 else 0.3, "p_delist": 0.1}}, cfg_opts=lambda k: {"p_auto_switch": 0.35, "frac_fut": True})
+    corr_p = ctx.corr("order_target_portfolio", "created orders (entry, side, quantity, limit) of every call whose target covers all holdings vs model `orderTargetPortfolio` on the same value, cash, holdings, prices, styles")
+    tstream.stream(ctx, ctx.n(80, 3000), None, [], extra_sync=lambda c, tr, ix: sizing_sync(c, corr_s, corr_f, tr, ix, corr_p),
+                   market_opts=lambda k: {"opts": {"p_split": 0.8 if k % 2 else 0.3, "p_delist": 0.1}}, cfg_opts=lambda k: {"p_auto_switch": 0.35, "frac_fut": True, "otp": True})
 
 
 def replay(ctx, data):
